@@ -2,10 +2,10 @@
 (* The NAT probe server: probetest/probetest.go, probeHandler and
    makePeerConnectionFromOffer.  A proxy POSTs a poll-response-like body that
    carries an SDP offer; the server makes a PeerConnection, answers, and waits
-   for the proxy's data channel; when it opens - or after dataChannelTimeout -
-   it closes the PeerConnection.  (The PROXY creates the data channel; the
-   server accepts it.  The proxy decides from its own side whether it opened:
-   spec/ProxyNAT.)
+   for the proxy's data channel; when the proxy has seen it open and closed it
+   again - or after dataChannelTimeout - it closes the PeerConnection.  (The
+   PROXY creates the data channel; the server accepts it.  The proxy decides
+   from its own side whether it opened: spec/ProxyNAT.)
 
    The handler, one action per step that can fail:
 
@@ -13,7 +13,7 @@
      h_decode   messages.DecodePollResponse                                 error    -> 400
      h_empty    offer == ""  (a "no match" body: no offer, NO error)        -> 400   [AsIs_NilErr: err.Error() on a nil error: panic]
      h_deser    util.DeserializeSessionDescription                          error    -> 400
-     h_newpc    webrtc.NewPeerConnection; OnDataChannel{OnOpen{close(dataChan)}}
+     h_newpc    webrtc.NewPeerConnection; OnDataChannel{OnClose{once{close(dataChan)}}}   [pinned: OnOpen{close(dataChan)}]
      h_setrem   pc.SetRemoteDescription                                     error    -> pc.Close, 500
      h_answer   pc.CreateAnswer                                             error    -> pc.Close, 500
      h_setloc   pc.SetLocalDescription                                      error    -> pc.Close, 500
@@ -274,14 +274,16 @@ PeerClose ==
   /\ pclosed' = TRUE
   /\ UNCHANGED <<rq, hpc, nread, resp, pcs, ncloses, dchan, gpc, timer, opens, crashed, age, ack, ccbs, why>>
 
-(* ... the server's OnClose callback of each accepted channel runs *)
+(* ... the server's OnClose callback of each accepted channel runs - IF the peer's close reaches the server: the
+   teardown of a PeerConnection is best effort (a DTLS close_notify that may not get out before the ICE transport is
+   stopped), so this step has no fairness; a close that is not noticed leaves the PeerConnection to the timeout *)
 DCClosed ==
   /\ pclosed /\ pcs = "open" /\ ~crashed /\ ccbs < opens
   /\ ccbs' = ccbs + 1
   /\ (IF AsIs_CloseAtOpen THEN UNCHANGED <<dchan, crashed>> ELSE Signal)
   /\ UNCHANGED <<rq, hpc, nread, resp, pcs, ncloses, gpc, timer, opens, age, ack, pclosed, why>>
 
-PionStep == AckDeliver \/ DCClosed
+PionStep == AckDeliver
 
 (* ---- the clock ---- *)
 Tick ==
@@ -289,10 +291,10 @@ Tick ==
   /\ timer' = timer - 1 /\ age' = age + 1
   /\ UNCHANGED <<rq, hpc, nread, resp, pcs, ncloses, dchan, gpc, opens, crashed, ack, pclosed, ccbs, why>>
 
-Next == HandlerStep \/ GoroutineStep \/ DCOpen \/ PionStep \/ PeerClose \/ Tick
+Next == HandlerStep \/ GoroutineStep \/ DCOpen \/ PionStep \/ DCClosed \/ PeerClose \/ Tick
 Spec == Init /\ [][Next]_vars
 (* fairness: the handler's and the goroutine's own steps (pion's gathering ends: it has its own
-   timeouts), pion's own goroutines and the clock; not the remote peer *)
+   timeouts), pion's write loop and the clock; not the remote peer, nor the arrival of its close *)
 LSpec == Spec /\ WF_vars(HandlerStep) /\ WF_vars(GoroutineStep) /\ WF_vars(PionStep) /\ WF_vars(Tick)
 
 -----------------------------------------------------------------------------
